@@ -275,6 +275,8 @@ def run(ctx):
         "the fresh-interpreter reference runs each distinct call alone in its own process with 1 Numba / dask thread",
         "inputs of every call are rebuilt from scratch (same values), so C10-style input mutation cannot leak between calls",
         "bump has no seed parameter (random by design): its result is unconstrained, it only serves as RNG consumer",
+        "after each call the harness overwrites the result in place (arrays, DataFrame columns, attrs): a result must not "
+        "alias hidden library state, repeated calls must still equal the reference",
         "thread timing is sampled (NUMBA_NUM_THREADS and dask threaded scheduler with 4 / 16 workers), not enumerated",
     ]
     rng = random.Random(ctx.seed * 7919 + 11)
@@ -299,7 +301,7 @@ def run(ctx):
 def model_part(ctx):
     # ---------------------------------------------------------------- M
     inv = ["TypeOK", "RepeatIdempotent", "DefaultIsExplicit"]
-    props = ["ResultDependsOnlyOnArgs", "ResultIsFresh", "HiddenStateFrozen", "JitOnlyGrows"]
+    props = ["ResultDependsOnlyOnArgs", "ResultIsFresh", "HiddenStateFrozen", "JitOnlyGrows", "CallerWriteIsLocal"]
     ctx.model_check("History", dict(spec="Spec", invariants=inv, properties=props,
                                     constants=abstract_constants(maxlen=ctx.pick(3, 4))), "all_histories", coverage=True)
     if ctx.tier == "thorough":
@@ -308,7 +310,9 @@ def model_part(ctx):
     for mut, prop, thr in (("stale_closure", "ResultIsFresh", 1), ("mutable_default", "HiddenStateFrozen", 1),
                            ("mutable_default", "ResultIsFresh", 1), ("table_pop", "HiddenStateFrozen", 1),
                            ("table_pop", "ResultIsFresh", 1), ("rng_no_reseed", "ResultIsFresh", 1),
-                           ("race", "ResultIsFresh", 4)):
+                           ("race", "ResultIsFresh", 4),
+                           # the function hands out its memoised result object: a caller editing it poisons later calls
+                           ("result_is_cache", "ResultIsFresh", 1), ("result_is_cache", "CallerWriteIsLocal", 1)):
         ctx.model_check("History", dict(spec="Spec", properties=[prop], constants=abstract_constants(mut=mut, threads=thr)),
                         "neg_%s_%s" % (mut, prop), expect="violation")
     ctx.model_check("History", dict(spec="Spec", invariants=["DefaultIsExplicit"],
